@@ -376,7 +376,10 @@ def _variants(s):
             va = lib.view_abs(s)
             # with re-triggered (nested) notes the velocity a fused note keeps depends on the stored order of equal
             # events, which a rebuild cannot and need not reproduce (the statements do not demand it)
-            if va[:2] == lib.view_rel(s)[:2] and not lib.pair_notes(va[0])[2]:
+            # likewise, of two signatures of one kind on ONE tick (e.g. the same key on two channels) the stored order
+            # decides which one a later normalise keeps; a rebuild does not reproduce that order
+            sigs = [(e[0], e[1]) for e in va[0] if e[1] in ("time_signature", "key_signature")]
+            if va[:2] == lib.view_rel(s)[:2] and not lib.pair_notes(va[0])[2] and len(set(sigs)) == len(sigs):
                 out["rebuilt"] = _rebuilt(s)
         except Exception:  # noqa: BLE001
             pass
